@@ -6,16 +6,18 @@ EXTENDS ReadOnly
 
 CONSTANT Full   \* TRUE: the whole request space (thorough tier); FALSE: a cross-section of it
 
-Ats == IF Full THEN 0..(height + 2) ELSE {0, 1, height, height + 2}
-Seconds(t1) == IF Full THEN DTx ELSE {t1, [k |-> "ok", c |-> 1], [k |-> "inc", c |-> 2]}
+Ats == IF Full THEN 0..(height + 2) ELSE {0, height, height + 2}
+Seconds(t1) == IF Full THEN DTx ELSE {t1, [k |-> "inc", c |-> 2]}
 
 MCNext ==
-  \/ \E t \in WTx : Submit(t)
+  \* ("rev" changes the chain exactly like "ok": only the thorough tier commits it)
+  \/ \E t \in WTx : (Full \/ t.k # "rev") /\ Submit(t)
   \/ height < 1 + MaxBlocks /\ Produce
   \/ \E t \in DTx : \E at \in Ats : \E uv \in (IF Full THEN {-1, 0, 1} ELSE {-1, 0}) :
        DryRun(<<t>>, at, uv, FALSE, -1, 0)
   \* storage-read recording and the gas price do not enter the abstract answer
-  \/ \E t \in DTx : \E at \in (IF Full THEN Ats ELSE {0}) : \E gp \in (IF Full THEN {0, 1} ELSE {1}) :
+  \/ \E t \in (IF Full THEN DTx ELSE {[k |-> "inc", c |-> 1], GhostTx}) : \E at \in (IF Full THEN Ats ELSE {0}) :
+     \E gp \in (IF Full THEN {0, 1} ELSE {1}) :
        DryRun(<<t>>, at, -1, TRUE, gp, 0)
   \/ \E t1 \in DTx : \E t2 \in Seconds(t1) : \E uv \in (IF Full THEN {-1, 0} ELSE {-1}) :
        DryRun(<<t1, t2>>, 0, uv, FALSE, -1, 0)
